@@ -36,7 +36,7 @@ pub struct St {
 }
 impl St {
     fn key(&self) -> String {
-        format!("{:?}|{}|{}", self.obj, self.normed, self.bad.is_some())
+        guarded(|| format!("{:?}|{}|{}", self.obj, self.normed, self.bad.is_some())).unwrap_or_else(|p| format!("PANIC while rendering the object: {} bad={}", p, self.bad.is_some()))
     }
 }
 impl PartialEq for St {
